@@ -80,14 +80,19 @@ theorem abs_execute (st : St) (k : Key) (sb : Sub) (found : Option Res) (r : Res
   by_cases h : l' = sb.root ∧ k' = k <;> simp [h, absCell, ACache.set]
 
 theorem cachedTest_abs (st : St) (k : Key) (sb : Sub) :
-    cachedTest true st k sb = (if sb.rerun then none else alookup (abs st).cache k sb.locs) := by
-  simp [cachedTest, alookup_abs]
+    cachedTest true st k sb = aTest (abs st) k sb := by
+  simp [cachedTest, aTest, alookup_abs]
+
+theorem abs_execute' (st : St) (k : Key) (sb : Sub) (found : Option Res) (r : Res) :
+    abs (execute st k sb found r) = aStore (abs st) k sb r := abs_execute st k sb found r
 
 theorem refine_task (W : World) (st : St) (n : Nat) (sb : Sub) :
     abs (runTask W true st n sb).1 = (specTask W (abs st) n sb).1
     ∧ (runTask W true st n sb).2 = (specTask W (abs st) n sb).2 := by
   unfold runTask specTask
   rw [cachedTest_abs]
+  show _ ∧ _
+  unfold aTest
   generalize (if sb.rerun then none else alookup (abs st).cache (.task n) sb.locs) = f
   cases f with
   | none => exact ⟨abs_execute _ _ _ _ _, rfl⟩
@@ -96,14 +101,14 @@ theorem refine_task (W : World) (st : St) (n : Nat) (sb : Sub) :
     | ok v => exact ⟨rfl, rfl⟩
     | err => exact ⟨abs_execute _ _ _ _ _, rfl⟩
 
-theorem refine_nodes (W : World) (sb : Sub) (nodes : List Nat) (st : St) :
-    abs (runNodes W true sb st nodes).1 = (specNodes W sb (abs st) nodes).1
-    ∧ (runNodes W true sb st nodes).2 = (specNodes W sb (abs st) nodes).2 := by
-  induction nodes generalizing st with
+theorem refine_nodes (W : World) (p : Bool) (nodes : Nodes) (sb : Sub) (st : St) :
+    abs (runNodes W true true p sb st nodes).1 = (specNodes W p sb (abs st) nodes).1
+    ∧ (runNodes W true true p sb st nodes).2 = (specNodes W p sb (abs st) nodes).2 := by
+  induction nodes generalizing sb st with
   | nil => exact ⟨rfl, rfl⟩
-  | cons n ns ih =>
+  | task n rest ih =>
     obtain ⟨h1, h2⟩ := refine_task W st n sb
-    unfold runNodes specNodes
+    simp only [runNodes, specNodes]
     cases hr : runTask W true st n sb with
     | mk st1 r =>
       cases hs : specTask W (abs st) n sb with
@@ -112,22 +117,51 @@ theorem refine_nodes (W : World) (sb : Sub) (nodes : List Nat) (st : St) :
         simp only at h1 h2
         subst h2
         cases r with
-        | ok v => rw [← h1]; exact ih st1
+        | ok v => rw [← h1]; exact ih sb st1
         | err => exact ⟨h1, rfl⟩
+  | wf n inner rest ihi ihr =>
+    obtain ⟨i1, i2⟩ := ihi (innerSub p sb) st
+    have hsb : nodeSub true sb = sb := rfl
+    simp only [runNodes, specNodes, hsb, cachedTest_abs]
+    cases hR : runNodes W true true p (innerSub p sb) st inner with
+    | mk stI b =>
+      cases hS : specNodes W p (innerSub p sb) (abs st) inner with
+      | mk aI b' =>
+        rw [hR, hS] at i1 i2
+        simp only at i1 i2
+        subst i2
+        subst i1
+        cases hf : aTest (abs st) (.wf n) sb with
+        | none =>
+          cases b with
+          | false => exact ⟨abs_execute' _ _ _ _ _, rfl⟩
+          | true =>
+            simp only [if_true]
+            rw [← abs_execute' stI (.wf n) sb none]
+            exact ihr sb _
+        | some r =>
+          cases r with
+          | ok v => exact ihr sb (hit st (.wf n) sb v)
+          | err =>
+            cases b with
+            | false => exact ⟨abs_execute' _ _ _ _ _, rfl⟩
+            | true =>
+              simp only [if_true]
+              rw [← abs_execute' stI (.wf n) sb (some .err)]
+              exact ihr sb _
 
-theorem refine_wf (W : World) (st : St) (n : Nat) (nodes : List Nat) (sb : Sub) (p : Bool) :
-    abs (runWf W true st n nodes sb p).1 = (specWf W (abs st) n nodes sb p).1
-    ∧ (runWf W true st n nodes sb p).2 = (specWf W (abs st) n nodes sb p).2 := by
+theorem refine_wf (W : World) (st : St) (n : Nat) (nodes : Nodes) (sb : Sub) (p : Bool) :
+    abs (runWf W true true st n nodes sb p).1 = (specWf W (abs st) n nodes sb p).1
+    ∧ (runWf W true true st n nodes sb p).2 = (specWf W (abs st) n nodes sb p).2 := by
   unfold runWf specWf
   rw [cachedTest_abs]
-  obtain ⟨h1, h2⟩ := refine_nodes W { sb with rerun := sb.rerun && p } nodes st
-  generalize (if sb.rerun then none else alookup (abs st).cache (.wf n) sb.locs) = f
-  cases f with
-  | none => dsimp only; exact ⟨by rw [abs_execute, h1, h2], by rw [h2]⟩
+  obtain ⟨h1, h2⟩ := refine_nodes W p nodes (innerSub p sb) st
+  cases hf : aTest (abs st) (.wf n) sb with
+  | none => dsimp only; exact ⟨by rw [abs_execute', h1, h2], by rw [h2]⟩
   | some r =>
     cases r with
     | ok v => exact ⟨rfl, rfl⟩
-    | err => dsimp only; exact ⟨by rw [abs_execute, h1, h2], by rw [h2]⟩
+    | err => dsimp only; exact ⟨by rw [abs_execute', h1, h2], by rw [h2]⟩
 
 /-- what `runTask` returns is what a look-up afterwards finds -/
 theorem readBack_task (W : World) (st : St) (n : Nat) (sb : Sub) :
@@ -145,35 +179,14 @@ theorem readBack_task (W : World) (st : St) (n : Nat) (sb : Sub) :
       · cases hf
       · exact hf
 
-theorem runTask_store_wf (W : World) (skip : Bool) (st : St) (n : Nat) (sb : Sub) (l : Loc) (m : Nat) :
-    (runTask W skip st n sb).1.store l (.wf m) = st.store l (.wf m) := by
-  unfold runTask
-  cases cachedTest skip st (.task n) sb with
-  | none => simp [execute, Store.set]
-  | some r => cases r <;> simp [execute, hit, Store.set]
-
-theorem runNodes_store_wf (W : World) (skip : Bool) (sb : Sub) (nodes : List Nat) (st : St) (l : Loc) (m : Nat) :
-    (runNodes W skip sb st nodes).1.store l (.wf m) = st.store l (.wf m) := by
-  induction nodes generalizing st with
-  | nil => rfl
-  | cons n ns ih =>
-    unfold runNodes
-    have h := runTask_store_wf W skip st n sb l m
-    cases hr : runTask W skip st n sb with
-    | mk st1 r =>
-      rw [hr] at h
-      cases r with
-      | ok v => simp only; rw [ih st1]; exact h
-      | err => simp only; exact h
-
 theorem lookup_congr (skip : Bool) (s s' : Store) (k : Key) (ls : List Loc) (h : ∀ l, s l k = s' l k) :
     lookupWith skip s k ls = lookupWith skip s' k ls := by
   induction ls with
   | nil => rfl
   | cons l ls ih => simp only [lookupWith, h l, ih]
 
-theorem readBack_wf (W : World) (st : St) (n : Nat) (nodes : List Nat) (sb : Sub) (p : Bool) :
-    readBack true (runWf W true st n nodes sb p).1 (.wf n) sb = some (runWf W true st n nodes sb p).2 := by
+theorem readBack_wf (W : World) (nest : Bool) (st : St) (n : Nat) (nodes : Nodes) (sb : Sub) (p : Bool) :
+    readBack true (runWf W true nest st n nodes sb p).1 (.wf n) sb = some (runWf W true nest st n nodes sb p).2 := by
   unfold runWf
   cases hf : cachedTest true st (.wf n) sb with
   | none => simp [readBack, execute, Sub.locs, lookupWith]
@@ -188,8 +201,8 @@ theorem readBack_wf (W : World) (st : St) (n : Nat) (nodes : List Nat) (sb : Sub
       · exact hf
 
 theorem refine_step (W : World) (st : St) (op : Op) :
-    abs (step W true st op).1 = (specStep W (abs st) op).1
-    ∧ (step W true st op).2 = (specStep W (abs st) op).2 := by
+    abs (step W true true st op).1 = (specStep W (abs st) op).1
+    ∧ (step W true true st op).2 = (specStep W (abs st) op).2 := by
   cases op with
   | submit n sb =>
     obtain ⟨h1, h2⟩ := refine_task W st n sb
@@ -205,16 +218,82 @@ theorem refine_step (W : World) (st : St) (op : Op) :
     by_cases h : l' = l ∧ k' = k <;> simp [h, absCell, ACache.set]
 
 theorem refine_trace (W : World) (ops : List Op) (st : St) :
-    (trace W true st ops).1 = (specTrace W (abs st) ops).1
-    ∧ abs (trace W true st ops).2 = (specTrace W (abs st) ops).2 := by
+    (trace W true true st ops).1 = (specTrace W (abs st) ops).1
+    ∧ abs (trace W true true st ops).2 = (specTrace W (abs st) ops).2 := by
   induction ops generalizing st with
   | nil => exact ⟨rfl, rfl⟩
   | cons op ops ih =>
     obtain ⟨h1, h2⟩ := refine_step W st op
-    obtain ⟨i1, i2⟩ := ih (step W true st op).1
+    obtain ⟨i1, i2⟩ := ih (step W true true st op).1
     simp only [trace, specTrace]
     rw [← h1, ← h2]
     exact ⟨by rw [i1], i2⟩
+
+/-! ### a generic way to carry a state predicate through the node jobs of a workflow, at every depth -/
+
+/-- if `P` survives a task job, an early return and the saving of a workflow result (for the workflow identities
+    allowed by `okKey`), it survives the node jobs of a workflow at every nesting depth -/
+theorem runNodes_pres (W : World) (skip nest p : Bool) (w0 : Loc) (okKey : Nat → Prop) (P : St → Prop)
+    (hTask : ∀ st n sb, sb.root = w0 → P st → P (runTask W skip st n sb).1)
+    (hHit : ∀ st m sb v, sb.root = w0 → okKey m → P st → P (hit st (.wf m) sb v))
+    (hExec : ∀ st m sb found r, sb.root = w0 → okKey m → P st → P (execute st (.wf m) sb found r))
+    (nodes : Nodes) (hkeys : ∀ m ∈ nodes.wfKeys, okKey m) :
+    ∀ (sb : Sub) (st : St), sb.root = w0 → P st → P (runNodes W skip nest p sb st nodes).1 := by
+  induction nodes with
+  | nil => intro sb st _ h; exact h
+  | task n rest ih =>
+    intro sb st hw h
+    simp only [runNodes]
+    have h1 := hTask st n sb hw h
+    cases hr : runTask W skip st n sb with
+    | mk st1 r =>
+      rw [hr] at h1
+      cases r with
+      | ok v => exact ih (fun m hm => hkeys m (by simpa [Nodes.wfKeys] using hm)) sb st1 hw h1
+      | err => exact h1
+  | wf n inner rest ihi ihr =>
+    intro sb st hw h
+    have hn : okKey n := hkeys n (by simp [Nodes.wfKeys])
+    have hki : ∀ m ∈ inner.wfKeys, okKey m := fun m hm => hkeys m (by simp [Nodes.wfKeys, hm])
+    have hkr : ∀ m ∈ rest.wfKeys, okKey m := fun m hm => hkeys m (by simp [Nodes.wfKeys, hm])
+    simp only [runNodes]
+    have hwj : (nodeSub nest sb).root = w0 := hw
+    have hwi : (innerSub p (nodeSub nest sb)).root = w0 := hw
+    generalize nodeSub nest sb = sbJob at hwj hwi ⊢
+    cases hf : cachedTest skip st (.wf n) sbJob with
+    | some r =>
+      cases r with
+      | ok v => exact ihr hkr sb _ hw (hHit st n sbJob v hwj hn h)
+      | err =>
+        simp only []
+        have hin := ihi hki (innerSub p sbJob) st hwi h
+        have hex := hExec _ n sbJob (some .err) (wfRes W n (runNodes W skip nest p (innerSub p sbJob) st inner).2) hwj hn hin
+        split
+        · exact ihr hkr sb _ hw hex
+        · exact hex
+    | none =>
+      simp only []
+      have hin := ihi hki (innerSub p sbJob) st hwi h
+      have hex := hExec _ n sbJob none (wfRes W n (runNodes W skip nest p (innerSub p sbJob) st inner).2) hwj hn hin
+      split
+      · exact ihr hkr sb _ hw hex
+      · exact hex
+
+theorem runWf_pres (W : World) (skip nest p : Bool) (okKey : Nat → Prop) (P : St → Prop) (sb : Sub)
+    (hTask : ∀ st n sb', sb'.root = sb.root → P st → P (runTask W skip st n sb').1)
+    (hHit : ∀ st m sb' v, sb'.root = sb.root → okKey m → P st → P (hit st (.wf m) sb' v))
+    (hExec : ∀ st m sb' found r, sb'.root = sb.root → okKey m → P st → P (execute st (.wf m) sb' found r))
+    (n : Nat) (nodes : Nodes) (hn : okKey n) (hkeys : ∀ m ∈ nodes.wfKeys, okKey m) (st : St) (h : P st) :
+    P (runWf W skip nest st n nodes sb p).1 := by
+  unfold runWf
+  have hin := runNodes_pres W skip nest p sb.root okKey P hTask hHit hExec nodes hkeys
+    (innerSub p sb) st rfl h
+  cases cachedTest skip st (.wf n) sb with
+  | none => exact hExec _ n sb _ _ rfl hn hin
+  | some r =>
+    cases r with
+    | ok v => exact hHit st n sb v rfl hn h
+    | err => exact hExec _ n sb _ _ rfl hn hin
 
 /-! ### frame: only `cache_root` is written -/
 
@@ -225,39 +304,34 @@ theorem runTask_frame (W : World) (skip : Bool) (st : St) (n : Nat) (sb : Sub) (
   | none => simp [execute, Store.set, hl]
   | some r => cases r <;> simp [execute, hit, Store.set, hl]
 
-theorem runNodes_frame (W : World) (skip : Bool) (sb : Sub) (nodes : List Nat) (st : St) (l : Loc)
-    (hl : l ≠ sb.root) (k : Key) : (runNodes W skip sb st nodes).1.store l k = st.store l k := by
-  induction nodes generalizing st with
-  | nil => rfl
-  | cons n ns ih =>
-    unfold runNodes
-    have h := runTask_frame W skip st n sb l hl k
-    cases hr : runTask W skip st n sb with
-    | mk st1 r =>
-      rw [hr] at h
-      cases r with
-      | ok v => simp only; rw [ih st1]; exact h
-      | err => simp only; exact h
+theorem execute_frame (st : St) (k' : Key) (sb : Sub) (found : Option Res) (r : Res) (l : Loc) (hl : l ≠ sb.root)
+    (k : Key) : (execute st k' sb found r).store l k = st.store l k := by
+  simp [execute, Store.set, hl]
 
-theorem runWf_frame (W : World) (skip : Bool) (st : St) (n : Nat) (nodes : List Nat) (sb : Sub) (p : Bool)
-    (l : Loc) (hl : l ≠ sb.root) (k : Key) : (runWf W skip st n nodes sb p).1.store l k = st.store l k := by
-  have hn := runNodes_frame W skip { sb with rerun := sb.rerun && p } nodes st l hl k
-  unfold runWf
-  cases cachedTest skip st (.wf n) sb with
-  | none => simp only [execute, Store.set, hl, false_and, if_false]; exact hn
-  | some r =>
-    cases r with
-    | ok v => rfl
-    | err => simp only [execute, Store.set, hl, false_and, if_false]; exact hn
+theorem runNodes_frame (W : World) (skip nest p : Bool) (sb : Sub) (nodes : Nodes) (st : St) (l : Loc)
+    (hl : l ≠ sb.root) (k : Key) : (runNodes W skip nest p sb st nodes).1.store l k = st.store l k := by
+  refine runNodes_pres W skip nest p sb.root (fun _ => True) (fun s => s.store l k = st.store l k) ?_ ?_ ?_
+    nodes (fun _ _ => trivial) sb st rfl rfl
+  · intro s n sb' hr h; rw [runTask_frame W skip s n sb' l (by rw [hr]; exact hl) k]; exact h
+  · intro s m sb' v _ _ h; exact h
+  · intro s m sb' found r hr _ h; rw [execute_frame s _ sb' found r l (by rw [hr]; exact hl) k]; exact h
 
-theorem step_frame (W : World) (skip : Bool) (st : St) (op : Op) (l : Loc)
+theorem runWf_frame (W : World) (skip nest : Bool) (st : St) (n : Nat) (nodes : Nodes) (sb : Sub) (p : Bool)
+    (l : Loc) (hl : l ≠ sb.root) (k : Key) : (runWf W skip nest st n nodes sb p).1.store l k = st.store l k := by
+  refine runWf_pres W skip nest p (fun _ => True) (fun s => s.store l k = st.store l k) sb ?_ ?_ ?_
+    n nodes trivial (fun _ _ => trivial) st rfl
+  · intro s n sb' hr h; rw [runTask_frame W skip s n sb' l (by rw [hr]; exact hl) k]; exact h
+  · intro s m sb' v _ _ h; exact h
+  · intro s m sb' found r hr _ h; rw [execute_frame s _ sb' found r l (by rw [hr]; exact hl) k]; exact h
+
+theorem step_frame (W : World) (skip nest : Bool) (st : St) (op : Op) (l : Loc)
     (hroot : op.root? ≠ some l) (hplant : ∀ k, op ≠ .plant l k) (k : Key) :
-    (step W skip st op).1.store l k = st.store l k := by
+    (step W skip nest st op).1.store l k = st.store l k := by
   cases op with
   | submit n sb =>
     exact runTask_frame W skip st n sb l (fun h => hroot (by simp [Op.root?, h])) k
   | submitWf n nodes sb p =>
-    exact runWf_frame W skip st n nodes sb p l (fun h => hroot (by simp [Op.root?, h])) k
+    exact runWf_frame W skip nest st n nodes sb p l (fun h => hroot (by simp [Op.root?, h])) k
   | plant l' k' =>
     simp only [step, Store.set]
     by_cases h : l = l' ∧ k = k'
@@ -361,29 +435,85 @@ theorem inv_runTask (W : World) (skip : Bool) (w : Loc) (k : Key) (st : St) (p :
       intro _ _ _
       exact Or.inr rfl
 
-theorem inv_runNodes (W : World) (skip : Bool) (w : Loc) (k : Key) (p : Nat) (sb : Sub) (nodes : List Nat) (st : St)
-    (h : Inv w k st p) : Inv w k (runNodes W skip sb st nodes).1 p := by
-  induction nodes generalizing st with
-  | nil => exact h
-  | cons n ns ih =>
-    unfold runNodes
+theorem runTask_store_wf (W : World) (skip : Bool) (st : St) (n : Nat) (sb : Sub) (l : Loc) (m : Nat) :
+    (runTask W skip st n sb).1.store l (.wf m) = st.store l (.wf m) := by
+  unfold runTask
+  cases cachedTest skip st (.task n) sb with
+  | none => simp [execute, Store.set]
+  | some r => cases r <;> simp [execute, hit, Store.set]
+
+/-- workflow cells of an identity that does not occur among the nodes are not touched by running them -/
+theorem runNodes_store_wf (W : World) (skip nest p : Bool) (sb : Sub) (nodes : Nodes) (st : St) (l : Loc) (m : Nat)
+    (hm : m ∉ nodes.wfKeys) : (runNodes W skip nest p sb st nodes).1.store l (.wf m) = st.store l (.wf m) := by
+  refine runNodes_pres W skip nest p sb.root (fun m' => m' ≠ m) (fun s => s.store l (.wf m) = st.store l (.wf m))
+    ?_ ?_ ?_ nodes (fun m' hm' he => hm (he ▸ hm')) sb st rfl rfl
+  · intro s n sb' _ h; rw [runTask_store_wf]; exact h
+  · intro s m' sb' v _ _ h; exact h
+  · intro s m' sb' found r _ hne h
+    have : ¬ (l = sb'.root ∧ Key.wf m = Key.wf m') := by
+      intro ⟨_, he⟩; injection he with he; exact hne he.symm
+    simp only [execute, Store.set, this, if_false]
+    exact h
+
+theorem inv_runNodes (W : World) (skip nest pr : Bool) (w : Loc) (k : Key) (p : Nat) (nodes : Nodes)
+    (hac : nodes.Acyclic) : ∀ (sb : Sub) (st : St), Inv w k st p → Inv w k (runNodes W skip nest pr sb st nodes).1 p := by
+  induction nodes with
+  | nil => intro sb st h; exact h
+  | task n rest ih =>
+    intro sb st h
+    simp only [runNodes]
     have h1 := inv_runTask W skip w k st p n sb h
     cases hr : runTask W skip st n sb with
     | mk st1 r =>
       rw [hr] at h1
       cases r with
-      | ok v => exact ih st1 h1
+      | ok v => exact ih hac sb st1 h1
       | err => exact h1
+  | wf n inner rest ihi ihr =>
+    intro sb st h
+    obtain ⟨hni, haci, hacr⟩ := hac
+    simp only [runNodes]
+    generalize nodeSub nest sb = sbJob
+    have hin := ihi haci (innerSub pr sbJob) st h
+    have hstore : ∀ l, (runNodes W skip nest pr (innerSub pr sbJob) st inner).1.store l (.wf n) = st.store l (.wf n) :=
+      fun l => runNodes_store_wf W skip nest pr _ inner st l n hni
+    cases hf : cachedTest skip st (.wf n) sbJob with
+    | none =>
+      simp only []
+      have hex : Inv w k (execute (runNodes W skip nest pr (innerSub pr sbJob) st inner).1 (.wf n) sbJob none
+          (wfRes W n (runNodes W skip nest pr (innerSub pr sbJob) st inner).2)) p := by
+        refine inv_execute w k _ p _ sbJob _ _ hin ?_
+        intro hk hw hc
+        subst hk; subst hw
+        rw [hstore] at hc
+        rcases cachedTest_root_complete skip st _ sbJob hc with hr | ⟨r, _, ht⟩
+        · exact Or.inl hr
+        · rw [hf] at ht; cases ht
+      split
+      · exact ihr hacr sb _ hex
+      · exact hex
+    | some r =>
+      cases r with
+      | ok v => exact ihr hacr sb _ (inv_hit w k st p _ sbJob v h)
+      | err =>
+        simp only []
+        have hex : Inv w k (execute (runNodes W skip nest pr (innerSub pr sbJob) st inner).1 (.wf n) sbJob (some .err)
+            (wfRes W n (runNodes W skip nest pr (innerSub pr sbJob) st inner).2)) p :=
+          inv_execute w k _ p _ sbJob _ _ hin (fun _ _ _ => Or.inr rfl)
+        split
+        · exact ihr hacr sb _ hex
+        · exact hex
 
-theorem inv_runWf (W : World) (skip : Bool) (w : Loc) (k : Key) (st : St) (p : Nat) (n : Nat) (nodes : List Nat)
-    (sb : Sub) (pr : Bool) (h : Inv w k st p) : Inv w k (runWf W skip st n nodes sb pr).1 p := by
+theorem inv_runWf (W : World) (skip nest : Bool) (w : Loc) (k : Key) (st : St) (p : Nat) (n : Nat) (nodes : Nodes)
+    (sb : Sub) (pr : Bool) (hn : n ∉ nodes.wfKeys) (hac : nodes.Acyclic) (h : Inv w k st p) :
+    Inv w k (runWf W skip nest st n nodes sb pr).1 p := by
   unfold runWf
-  have hn := inv_runNodes W skip w k p { sb with rerun := sb.rerun && pr } nodes st h
-  have hstore : ∀ l, (runNodes W skip { sb with rerun := sb.rerun && pr } st nodes).1.store l (.wf n)
-      = st.store l (.wf n) := fun l => runNodes_store_wf W skip _ nodes st l n
+  have hin := inv_runNodes W skip nest pr w k p nodes hac (innerSub pr sb) st h
+  have hstore : ∀ l, (runNodes W skip nest pr (innerSub pr sb) st nodes).1.store l (.wf n) = st.store l (.wf n) :=
+    fun l => runNodes_store_wf W skip nest pr _ nodes st l n hn
   cases hf : cachedTest skip st (.wf n) sb with
   | none =>
-    refine inv_execute w k _ p _ sb _ _ hn ?_
+    refine inv_execute w k _ p _ sb _ _ hin ?_
     intro hk hw hc
     subst hk; subst hw
     rw [hstore] at hc
@@ -394,15 +524,15 @@ theorem inv_runWf (W : World) (skip : Bool) (w : Loc) (k : Key) (st : St) (p : N
     cases r with
     | ok v => exact inv_hit w k st p _ sb v h
     | err =>
-      refine inv_execute w k _ p _ sb _ _ hn ?_
+      refine inv_execute w k _ p _ sb _ _ hin ?_
       intro _ _ _
       exact Or.inr rfl
 
-theorem inv_step (W : World) (skip : Bool) (w : Loc) (k : Key) (st : St) (p : Nat) (op : Op)
-    (h : Inv w k st p) : Inv w k (step W skip st op).1 (p + (if op = .plant w k then 1 else 0)) := by
+theorem inv_step (W : World) (skip nest : Bool) (w : Loc) (k : Key) (st : St) (p : Nat) (op : Op) (hac : op.Acyclic)
+    (h : Inv w k st p) : Inv w k (step W skip nest st op).1 (p + (if op = .plant w k then 1 else 0)) := by
   cases op with
   | submit n sb => simpa [step] using inv_runTask W skip w k st p n sb h
-  | submitWf n nodes sb pr => simpa [step] using inv_runWf W skip w k st p n nodes sb pr h
+  | submitWf n nodes sb pr => simpa [step] using inv_runWf W skip nest w k st p n nodes sb pr hac.1 hac.2 h
   | plant l k' =>
     unfold Inv at *
     simp only [step]
@@ -417,13 +547,13 @@ theorem inv_step (W : World) (skip : Bool) (w : Loc) (k : Key) (st : St) (p : Na
       simp only [hcell, hne, if_false, Nat.add_zero]
       exact h
 
-theorem inv_run (W : World) (skip : Bool) (w : Loc) (k : Key) (ops : List Op) (st : St) (p : Nat)
-    (h : Inv w k st p) : Inv w k (run W skip st ops) (p + plantsAt ops w k) := by
+theorem inv_run (W : World) (skip nest : Bool) (w : Loc) (k : Key) (ops : List Op) (hac : ∀ op ∈ ops, op.Acyclic)
+    (st : St) (p : Nat) (h : Inv w k st p) : Inv w k (run W skip nest st ops) (p + plantsAt ops w k) := by
   induction ops generalizing st p with
   | nil => simpa [run, trace, plantsAt] using h
   | cons op ops ih =>
-    have h1 := inv_step W skip w k st p op h
-    have h2 := ih (step W skip st op).1 _ h1
+    have h1 := inv_step W skip nest w k st p op (hac op (by simp)) h
+    have h2 := ih (fun o ho => hac o (by simp [ho])) (step W skip nest st op).1 _ h1
     simp only [run, trace] at h2 ⊢
     have : p + (if op = .plant w k then 1 else 0) + plantsAt ops w k = p + plantsAt (op :: ops) w k := by
       simp only [plantsAt, List.countP_cons]
@@ -459,34 +589,15 @@ theorem good_runTask (W : World) (skip : Bool) (n : Nat) (hdet : ∀ i, W.body n
     | ok v => exact h
     | err => exact good_execute W n st _ sb _ _ h (by intro he; injection he with he; subst he; exact hdet _)
 
-theorem good_runNodes (W : World) (skip : Bool) (n : Nat) (hdet : ∀ i, W.body n i = W.body n 0) (sb : Sub)
-    (nodes : List Nat) (st : St) (h : Good W n st) : Good W n (runNodes W skip sb st nodes).1 := by
-  induction nodes generalizing st with
-  | nil => exact h
-  | cons m ms ih =>
-    unfold runNodes
-    have h1 := good_runTask W skip n hdet st m sb h
-    cases hr : runTask W skip st m sb with
-    | mk st1 r =>
-      rw [hr] at h1
-      cases r with
-      | ok v => exact ih st1 h1
-      | err => exact h1
-
-theorem good_step (W : World) (skip : Bool) (n : Nat) (hdet : ∀ i, W.body n i = W.body n 0) (st : St) (op : Op)
-    (h : Good W n st) : Good W n (step W skip st op).1 := by
+theorem good_step (W : World) (skip nest : Bool) (n : Nat) (hdet : ∀ i, W.body n i = W.body n 0) (st : St) (op : Op)
+    (h : Good W n st) : Good W n (step W skip nest st op).1 := by
   cases op with
   | submit m sb => exact good_runTask W skip n hdet st m sb h
   | submitWf m nodes sb p =>
-    simp only [step]
-    unfold runWf
-    have hn := good_runNodes W skip n hdet { sb with rerun := sb.rerun && p } nodes st h
-    cases cachedTest skip st (.wf m) sb with
-    | none => exact good_execute W n _ _ sb _ _ hn (by intro he; cases he)
-    | some r =>
-      cases r with
-      | ok v => exact h
-      | err => exact good_execute W n _ _ sb _ _ hn (by intro he; cases he)
+    refine runWf_pres W skip nest p (fun _ => True) (Good W n) sb ?_ ?_ ?_ m nodes trivial (fun _ _ => trivial) st h
+    · intro s m' sb' _ hs; exact good_runTask W skip n hdet s m' sb' hs
+    · intro s m' sb' v _ _ hs; exact hs
+    · intro s m' sb' found r _ _ hs; exact good_execute W n s _ sb' found r hs (by intro he; cases he)
   | plant l k =>
     intro l' r hc
     simp only [step, Store.set] at hc
@@ -552,61 +663,47 @@ theorem noerr_runTask (W : World) (skip : Bool) (n : Nat) (v0 : Nat) (hok : W.bo
         cases this
       · exact h e he
 
-theorem noerr_runNodes (W : World) (skip : Bool) (n : Nat) (v0 : Nat) (hok : W.body n 0 = .ok v0)
-    (hdet : ∀ i, W.body n i = W.body n 0) (sb : Sub) (nodes : List Nat) (st : St)
-    (hg : Good W n st) (h : NoErrLog n st.log) : NoErrLog n (runNodes W skip sb st nodes).1.log := by
-  induction nodes generalizing st with
-  | nil => exact h
-  | cons m ms ih =>
-    unfold runNodes
-    have h1 := noerr_runTask W skip n v0 hok st m sb hg h
-    have g1 := good_runTask W skip n hdet st m sb hg
-    cases hr : runTask W skip st m sb with
-    | mk st1 r =>
-      rw [hr] at h1 g1
-      cases r with
-      | ok v => exact ih st1 g1 h1
-      | err => exact h1
-
-theorem noerr_step (W : World) (skip : Bool) (n : Nat) (v0 : Nat) (hok : W.body n 0 = .ok v0)
+theorem noerr_step (W : World) (skip nest : Bool) (n : Nat) (v0 : Nat) (hok : W.body n 0 = .ok v0)
     (hdet : ∀ i, W.body n i = W.body n 0) (st : St) (op : Op)
-    (hg : Good W n st) (h : NoErrLog n st.log) : NoErrLog n (step W skip st op).1.log := by
+    (hg : Good W n st) (h : NoErrLog n st.log) :
+    Good W n (step W skip nest st op).1 ∧ NoErrLog n (step W skip nest st op).1.log := by
   cases op with
-  | submit m sb => exact noerr_runTask W skip n v0 hok st m sb hg h
+  | submit m sb => exact ⟨good_runTask W skip n hdet st m sb hg, noerr_runTask W skip n v0 hok st m sb hg h⟩
   | submitWf m nodes sb p =>
-    simp only [step]
-    unfold runWf
-    have hn := noerr_runNodes W skip n v0 hok hdet { sb with rerun := sb.rerun && p } nodes st hg h
-    cases cachedTest skip st (.wf m) sb with
-    | none =>
+    refine runWf_pres W skip nest p (fun _ => True) (fun s => Good W n s ∧ NoErrLog n s.log) sb ?_ ?_ ?_ m nodes trivial
+      (fun _ _ => trivial) st ⟨hg, h⟩
+    · intro s m' sb' _ hs
+      exact ⟨good_runTask W skip n hdet s m' sb' hs.1, noerr_runTask W skip n v0 hok s m' sb' hs.1 hs.2⟩
+    · intro s m' sb' v _ _ hs
+      refine ⟨hs.1, ?_⟩
+      intro e he
+      simp only [hit, List.mem_cons] at he
+      rcases he with rfl | he
+      · intro hk; cases hk
+      · exact hs.2 e he
+    · intro s m' sb' found r _ _ hs
+      refine ⟨good_execute W n s _ sb' found r hs.1 (by intro he; cases he), ?_⟩
       intro e he
       simp only [execute, List.mem_cons] at he
       rcases he with rfl | he
       · intro hk; cases hk
-      · exact hn e he
-    | some r =>
-      cases r with
-      | ok v =>
-        intro e he
-        simp only [hit, List.mem_cons] at he
-        rcases he with rfl | he
-        · intro hk; cases hk
-        · exact h e he
-      | err =>
-        intro e he
-        simp only [execute, List.mem_cons] at he
-        rcases he with rfl | he
-        · intro hk; cases hk
-        · exact hn e he
-  | plant l k => exact h
+      · exact hs.2 e he
+  | plant l k =>
+    refine ⟨?_, h⟩
+    intro l' r hc
+    simp only [step, Store.set] at hc
+    split at hc
+    · cases hc
+    · exact hg l' r hc
 
-theorem noerr_run (W : World) (skip : Bool) (n : Nat) (v0 : Nat) (hok : W.body n 0 = .ok v0)
+theorem noerr_run (W : World) (skip nest : Bool) (n : Nat) (v0 : Nat) (hok : W.body n 0 = .ok v0)
     (hdet : ∀ i, W.body n i = W.body n 0) (ops : List Op) (st : St)
-    (hg : Good W n st) (h : NoErrLog n st.log) : NoErrLog n (run W skip st ops).log := by
+    (hg : Good W n st) (h : NoErrLog n st.log) : NoErrLog n (run W skip nest st ops).log := by
   induction ops generalizing st with
   | nil => exact h
   | cons op ops ih =>
-    exact ih _ (good_step W skip n hdet st op hg) (noerr_step W skip n v0 hok hdet st op hg h)
+    obtain ⟨g1, h1⟩ := noerr_step W skip nest n v0 hok hdet st op hg h
+    exact ih _ g1 h1
 
 theorem foundErrAt_zero (n : Nat) (log : List Event) (w : Loc) (h : NoErrLog n log) :
     foundErrAt log w (.task n) = 0 := by
@@ -631,25 +728,67 @@ theorem runTask_execs_other (W : World) (skip : Bool) (st : St) (n : Nat) (sb : 
   | none => simp [execute, hk]
   | some r => cases r <;> simp [execute, hit, hk]
 
-theorem runNodes_rerun_execs (W : World) (skip : Bool) (sb : Sub) (hr : sb.rerun = true) (nodes : List Nat) (st st' : St)
-    (h : runNodes W skip sb st nodes = (st', true)) (m : Nat) :
-    st'.execs (.task m) = st.execs (.task m) + nodes.count m := by
-  induction nodes generalizing st with
-  | nil => simp [runNodes] at h; simp [h]
-  | cons n ns ih =>
-    unfold runNodes at h
+theorem execute_execs (st : St) (k' : Key) (sb : Sub) (found : Option Res) (r : Res) (k : Key) :
+    (execute st k' sb found r).execs k = st.execs k + (if k = k' then 1 else 0) := by
+  simp only [execute]
+  by_cases h : k = k'
+  · subst h; simp
+  · simp [h]
+
+/-- a rerun level with propagation on: if all node jobs succeed, every task and every nested workflow below this
+    level has been executed once more per occurrence — at every depth -/
+theorem runNodes_rerun_execs (W : World) (skip : Bool) (nodes : Nodes) :
+    ∀ (sb : Sub) (st st' : St), sb.rerun = true → runNodes W skip true true sb st nodes = (st', true) →
+      (∀ m, st'.execs (.task m) = st.execs (.task m) + nodes.countTask m)
+      ∧ (∀ k, st'.execs (.wf k) = st.execs (.wf k) + nodes.countWf k) := by
+  induction nodes with
+  | nil =>
+    intro sb st st' _ h
+    simp only [runNodes, Prod.mk.injEq, and_true] at h
+    subst h
+    simp [Nodes.countTask, Nodes.countWf]
+  | task n rest ih =>
+    intro sb st st' hr h
+    simp only [runNodes] at h
     rw [runTask_rerun W skip st n sb hr] at h
     cases hb : W.body n (st.execs (.task n)) with
     | err => rw [hb] at h; simp at h
     | ok v =>
       rw [hb] at h
       simp only at h
-      have := ih _ h
-      rw [this]
-      simp only [execute, List.count_cons]
-      by_cases hm : m = n
-      · subst hm; simp; omega
-      · have : (Key.task m = Key.task n) = False := by simp [hm]
-        simp [this, hm, Ne.symm hm]
+      obtain ⟨h1, h2⟩ := ih sb _ st' hr h
+      refine ⟨fun m => ?_, fun k => ?_⟩
+      · rw [h1 m, execute_execs]
+        simp only [Nodes.countTask, Key.task.injEq]
+        by_cases hm : n = m
+        · subst hm; simp; omega
+        · have : ¬ m = n := fun e => hm e.symm
+          simp [hm, this]
+      · rw [h2 k, execute_execs]
+        simp [Nodes.countWf]
+  | wf n inner rest ihi ihr =>
+    intro sb st st' hr h
+    have hns : nodeSub true sb = sb := rfl
+    have his : (innerSub true sb).rerun = true := by simp [innerSub, hr]
+    have hct : cachedTest skip st (.wf n) sb = none := by simp [cachedTest, hr]
+    simp only [runNodes, hns, hct] at h
+    cases hR : runNodes W skip true true (innerSub true sb) st inner with
+    | mk stI b =>
+      rw [hR] at h
+      cases b with
+      | false => simp at h
+      | true =>
+        simp only [if_true] at h
+        obtain ⟨i1, i2⟩ := ihi (innerSub true sb) st stI his hR
+        obtain ⟨r1, r2⟩ := ihr sb _ st' hr h
+        refine ⟨fun m => ?_, fun k => ?_⟩
+        · rw [r1 m, execute_execs, i1 m]
+          simp [Nodes.countTask]; omega
+        · rw [r2 k, execute_execs, i2 k]
+          simp only [Nodes.countWf, Key.wf.injEq]
+          by_cases hk : n = k
+          · subst hk; simp; omega
+          · have : ¬ k = n := fun e => hk e.symm
+            simp [hk, this]; omega
 
 end PydraModel.JobProto.CacheHist
